@@ -41,11 +41,17 @@ def _rec(item):
     return item, name, sql, fixrun.fix_record(item[1], sql, item[3], jctx)
 
 
-def records(ctx, rulesets, per_quick, kinds=None, procs=14):
+def records(ctx, rulesets, per_quick, kinds=None, procs=14, focus=()):
     items = corpus.full_universe(rulesets)
     if kinds:
         items = [i for i in items if i[0] in kinds]
-    items = slice_of(ctx, items, per_quick)
+    if focus and (ctx.quick() or ctx.tier == "quick"):
+        # half of a quick run's budget goes to the kinds built for this property's hazard (comments, quoted names, near-limit lines)
+        a = [i for i in items if i[0] in focus]
+        b = [i for i in items if i[0] not in focus]
+        items = slice_of(ctx, a, per_quick // 2) + slice_of(ctx, b, per_quick - per_quick // 2)
+    else:
+        items = slice_of(ctx, items, per_quick)
     ctx.extra["universe_slice"] = len(items)
     from vlib.par import robust_map
     res = robust_map(_rec, items, procs, 300)
@@ -58,10 +64,10 @@ def records(ctx, rulesets, per_quick, kinds=None, procs=14):
         yield r
 
 
-def run_universe(ctx, prop, rulesets, per_quick, what, kinds=None):
+def run_universe(ctx, prop, rulesets, per_quick, what, kinds=None, focus=()):
     """Runs fix on the slice; evaluates the Lean spec for `prop`; reports violations keyed by input."""
     lines, meta = [], []
-    for (item, name, sql, rec) in sorted(records(ctx, rulesets, per_quick, kinds), key=lambda r: (str(r[0]))):
+    for (item, name, sql, rec) in sorted(records(ctx, rulesets, per_quick, kinds, focus=focus), key=lambda r: (str(r[0]))):
         if name is None:
             continue
         rs = item[3]
